@@ -238,6 +238,7 @@ def explore(fam, tier='quick', budget_s=60, timeout_ms=3000, slow_ms=20000, max_
                samples=[], decisions=0)
     stats = core.Stats()
     seen_funcs = set()
+    Engine.prefer_nlsat = 0
 
     def prof(frame, event, arg):
         if event == 'call':
@@ -489,6 +490,7 @@ def finish(prop, tier, seed, results, t0, level_note, bounds, outside_claim, ass
         families=len(results), families_decided=len(decided),
         families_undecided=[dict(family=r['family'], errors=r['errors'][:2], missing_outcomes=r.get('missing_outcomes')) for r in undecided][:40],
         outcome_classes={r['family']: r['outcomes'] for r in results},
+        slowest_families=sorted(((r['wall_s'], r['family'], r['paths']) for r in results), reverse=True)[:8],
         functions_encoded=funcs,
         bounds=bounds,
         queries=tot.queries, unsat=tot.unsat, sat=tot.sat, unknown=tot.unknown, solver_s=round(tot.solver_s, 2),
